@@ -14,5 +14,9 @@ def run(ctx):
     record_local_premise(ctx)
     from ..scen_purity import getter_purity
     getter_purity(ctx)       # a getter that keeps state (cell, thread-local, static) must still be a function of its arguments
+    from ..scen_print import json_framing
+    json_framing(ctx)          # a row is a function of its value: the output process keeps nothing from earlier rows
+    from ..scen_files import files, file_sources
+    files(ctx); file_sources(ctx)      # every file argument is read, each time it is given
     from ..conform import conformance
     conformance(ctx, ['pipeline'])      # the references the obligations are stated against, compared with jawk::go on concrete runs (validates the oracles; never decides)
